@@ -11,6 +11,12 @@ import (
 
 // ufApply returns fresh result bytes for f(args...) and adds the UF axioms w.r.t. earlier calls.
 func (in *Interp) ufApply(name string, args [][]*Term, outLen int) []*Term {
+	return in.ufApplyKind(name, args, outLen, true)
+}
+
+// ufApplyKind: injective = collision-free (cryptographic digests); otherwise only functional
+// consistency (equal arguments give equal results), e.g. a scoring function.
+func (in *Interp) ufApplyKind(name string, args [][]*Term, outLen int, injective bool) []*Term {
 	ts := in.ts
 	// syntactically identical arguments: the very same result terms
 	for _, prev := range in.ufCalls[name] {
@@ -81,7 +87,9 @@ func (in *Interp) ufApply(name string, args [][]*Term, outLen int) []*Term {
 		}
 		resEq := in.strEq(Str{res}, Str{prev.res})
 		if !sameShape {
-			cs = append(cs, ts.Not(resEq))
+			if injective {
+				cs = append(cs, ts.Not(resEq))
+			}
 			continue
 		}
 		var aeq []*Term
@@ -89,7 +97,11 @@ func (in *Interp) ufApply(name string, args [][]*Term, outLen int) []*Term {
 			aeq = append(aeq, in.strEq(Str{args[i]}, Str{prev.args[i]}))
 		}
 		argsEq := ts.And(aeq...)
-		cs = append(cs, ts.Eq(argsEq, resEq))
+		if injective {
+			cs = append(cs, ts.Eq(argsEq, resEq))
+		} else {
+			cs = append(cs, ts.Implies(argsEq, resEq))
+		}
 	}
 	in.ufCalls[name] = append(in.ufCalls[name], ufCall{args: args, res: res})
 	if len(cs) > 0 {
